@@ -19,6 +19,9 @@ pub mod shims {
     pub mod sync {
 //@include frag/sync_shim.tpl
     }
+    pub mod fmt {
+//@include frag/fmt_shim.tpl
+    }
 }
 pub mod common {
     pub mod bits {
